@@ -205,7 +205,7 @@ MANIFEST = {
     "text": "Static decision of the structural clauses of C10: the compound position/orientation setters apply the typed rigid-motion algebra to the "
             "children (translation by the collection's displacement; rotation by new*old^-1 about the collection's position), and move/_rotate/setters/"
             "reset_path recurse over all children with the same arguments, forwarding the top-level anchor path through nested collections. "
-            "Per-index padding of child paths and numeric invariance are not decided. Also decided: in-place pose writes only on the updated object, pose validators and the position getter hand out fresh arrays (alias analysis), no early return before the children loops.",
+            "Per-index padding of child paths and numeric invariance are not decided. Also decided: in-place pose writes only on the updated object, pose validators and the position getter hand out fresh arrays (alias analysis), no early return before the children loops. Round 3: if/else lanes that build differently typed rotations are each judged at the child.rotate call (Alt values), and the children loop of the setters is a must-pass-through check (a lane selection is fine, a skipping branch is not).",
     "design_ref": "DESIGN.md §3 C10",
     "note": "Trusted: FRAME interpreter + declarations; summaries of validators and pad_slice_path.",
     "technique": "static analysis: frame-type abstract interpretation + structural recursion/forwarding check over the syntax tree",
